@@ -477,6 +477,55 @@ def install_setcomp(I):
     comp.handles_filters = True
     I.specs["comp_abstract"] = comp
 
+    def fill_loop(I_, n, st, fr, itv):
+        """`acc = {}` ... `for k in <abstract set>: [if c:] acc[key] = value` is the comprehension {key: value for k in S if c} written
+        out (same recognition as the engine's map_loop_as_comprehension, which only accepts a plain dict as the result): evaluated as
+        that comprehension; the local then names the generic mapping.  Only when the fresh empty dict is referenced by nothing else."""
+        if not (isinstance(itv, Ref) and isinstance(st.get(itv), HSet) and st.get(itv).items is None):
+            return None
+        if n.orelse or len(n.body) != 1 or isinstance(n, ast.AsyncFor):
+            return None
+        stmt, tests = n.body[0], []
+        while isinstance(stmt, ast.If) and not stmt.orelse and len(stmt.body) == 1:
+            tests.append(stmt.test)
+            stmt = stmt.body[0]
+        if not (isinstance(stmt, ast.Assign) and len(stmt.targets) == 1 and isinstance(stmt.targets[0], ast.Subscript)
+                and isinstance(stmt.targets[0].value, ast.Name) and not isinstance(stmt.targets[0].slice, ast.Slice)):
+            return None
+        acc = stmt.targets[0].value.id
+        comp_node = ast.DictComp(key=stmt.targets[0].slice, value=stmt.value,
+                                 generators=[ast.comprehension(target=n.target, iter=n.iter, ifs=tests, is_async=0)])
+        used = {x.id for part in [n.iter, n.target, comp_node.key, comp_node.value] + tests for x in ast.walk(part) if isinstance(x, ast.Name)}
+        if acc in used:
+            return None
+        try:
+            ref = I_.lookup(st, fr, acc, n)
+        except Exception:
+            return None
+        if not (isinstance(ref, Ref) and isinstance(st.get(ref), HDict) and st.get(ref).items == {} and ref.id in st.allocated):
+            return None
+        # the empty dict must be reachable through this local only (the local is re-bound, the object is not updated in place)
+        refs = sum(1 for fid, loc in st.frames.items() for v in loc.values() if v == ref)
+        for h in st.heap.values():
+            vals = list(getattr(h, "fields", {}).values()) if isinstance(h, HObj) else (list(h.items) if isinstance(h, HList) and h.items is not None else
+                                                                                         list(h.items.values()) if isinstance(h, HDict) and h.items is not None else [])
+            refs += sum(1 for v in vals if isinstance(v, Ref) and v == ref)
+        if refs != 1:
+            return None
+        ast.copy_location(comp_node, n)
+        ast.fix_missing_locations(comp_node)
+        from pyvc.interp import Ctl, OK
+        out = []
+        for s2, v in I_.ev(comp_node, st, fr):
+            if isinstance(v, Raised):
+                out.append((s2, Ctl("raise", v.exc)))
+                continue
+            I_.store_name(s2, fr, acc, v)
+            out.append((s2, OK))
+        return out
+
+    I.specs["for_abstract"] = fill_loop
+
 
 def n_quantified(formulas):
     return sum(1 for f in formulas if z3.is_quantifier(f))
